@@ -13,6 +13,7 @@
 import Saltpack.Proofs.StreamLemmas
 import Saltpack.Proofs.ChunkReaderAll
 import Saltpack.Proofs.PunctAll
+import Saltpack.Proofs.ArmorStackFaults
 
 namespace Saltpack.Props.C14
 open Saltpack Saltpack.Stream Saltpack.Proofs
@@ -101,6 +102,33 @@ theorem C14_punct_reports (caps : List Nat) (hpos : ∀ c ∈ caps, 0 < c) (s : 
     ∃ s1, pReadSeg caps fuel k s [] = (t, some (.err z), s1) :=
   let ⟨s1, h, _, _⟩ := (pReadSeg_eq caps hpos s hwf fuel hfuel k t (.err z) ht).2 hnp
   ⟨s1, h⟩
+
+/-- **The armor reader stack never turns a reader fault into a clean end**:
+    the underlying reader delivers data (non-empty reads) and then a non-EOF
+    error `z` — alone or together with data `dd` — and ANYTHING afterwards
+    (`post` arbitrary: the error persisting, the reader recovering, …); for every
+    schedule of positive buffer sizes the stack ends with an error, and what it
+    released before is a prefix of what the text delivered so far allows.
+    (`z ≠ ErrPunctuated`: a reader that itself returns saltpack's internal
+    sentinel is taken for a period — counterexample in the proof file.) -/
+theorem C14_armor_fault_never_clean (par : Armor.Params) (hpar : par.enc.WF) (expect : Armor.Expect)
+    (pre post : Source) (dd : Bytes) (z : Err) (hpre : DataOnly pre) (hz : z ≠ .punctuated)
+    (caps : List Nat) (hcaps : ∀ c ∈ caps, 0 < c) (fuel : Nat) (hfuel : (dataOf pre ++ dd).length + 1 ≤ fuel) :
+    ∃ released e d,
+      readAll par expect caps fuel 0 (newDecoder (pre ++ (dd, some (.err z)) :: post)) [] = (released, some e, d) ∧
+      released <+: faultRelease par expect (dataOf pre ++ dd) :=
+  fault_never_clean_shape par hpar expect pre post dd z hpre hz caps hcaps fuel hfuel
+
+/-- …and those released bytes are comparable with what a fault-free read of any
+    continuation of the text releases (nothing but a prefix of the payload) -/
+theorem C14_armor_fault_release_comparable (par : Armor.Params) (hpar : par.enc.WF) (expect : Armor.Expect)
+    (src src' : Source) (T X : Bytes) (z : Err) (hpre : SrcPre src) (hsrc : srcText src = (T, .err z))
+    (hz : z ≠ .punctuated) (hok' : SrcOK src') (hsrc' : srcText src' = (T ++ X, .eof))
+    (caps caps' : List Nat) (hcaps : ∀ c ∈ caps, 0 < c) (hcaps' : ∀ c ∈ caps', 0 < c)
+    (fuel fuel' : Nat) (hfuel : T.length + 1 ≤ fuel) (hfuel' : (T ++ X).length + 1 ≤ fuel') :
+    (readAll par expect caps fuel 0 (newDecoder src) []).1 <+: (readAll par expect caps' fuel' 0 (newDecoder src') []).1 ∨
+    (readAll par expect caps' fuel' 0 (newDecoder src') []).1 <+: (readAll par expect caps fuel 0 (newDecoder src) []).1 :=
+  released_prefix_comparable_fault par hpar expect src src' T X z hpre hsrc hz hok' hsrc' caps caps' hcaps hcaps' fuel fuel' hfuel hfuel'
 
 /-! ## non-vacuity -/
 example : (({ enc := Gen.base62Std, sink := [true] } : EncState).write (List.replicate 32 7)).2.1 = false := by decide
